@@ -562,11 +562,21 @@ fn compute_intersection_residue_class(
     // ```
     let (gcd, left_inverse, right_inverse) = extended_gcd(stride_left, stride_right);
 
-    if base_left % gcd != base_right % gcd {
+    if base_left.rem_euclid(gcd) != base_right.rem_euclid(gcd) {
         // The residue classes do not intersect, thus the intersection is empty.
         Ok(None)
     } else {
-        let lcm = (stride_left / gcd) * stride_right;
+        let lcm = match (stride_left / gcd).checked_mul(stride_right) {
+            Some(lcm) if lcm <= u64::MAX as i128 => lcm,
+            _ => {
+                return Err(anyhow!(
+                    "Integer overflow during chinese remainder theorem computation."
+                ))
+            }
+        };
+        // Use non-negative representatives of the bases,
+        // since the divisions and remainder computations below assume non-negative values.
+        let (base_left, base_right) = (base_left.rem_euclid(lcm), base_right.rem_euclid(lcm));
         // The residue class of the intersection is computed such that the following equations hold:
         // ```
         // residue_class = base_right   (modulo stride_right)
@@ -577,7 +587,7 @@ fn compute_intersection_residue_class(
             + ((base_left % lcm) / gcd * (right_inverse * stride_right)) % lcm // = base_left / gcd * gcd (modulo stride_left)
             + base_left % gcd; // = base_left % gcd = base_right % gcd
                                // Ensure that the residue class is not negative
-        let residue_class = (residue_class + lcm) % lcm;
+        let residue_class = residue_class.rem_euclid(lcm);
 
         // Since we cannot rule out integer overflows for all possible inputs,
         // we need to check the correctness of the result.
